@@ -666,6 +666,7 @@ func (e *daemonEngine) collectEpoch(id string, members []int, epochNo int, old *
 		}
 		ep.complete[i] = true
 		e.rtWire(n, id, g)
+		e.rtTamper(n, g)
 		if ref == nil {
 			ref, refNode = g, i
 		} else if d := groupDiff(ref, g); d != "" {
